@@ -274,6 +274,11 @@ def make_licensing(T, form=None):
         return le.Licensing([k for k, _, _ in T])
     if form == 'sym':
         return le.Licensing([le.LicenseSymbol(k, aliases=tuple(als), is_exception=ex) for k, als, ex in T])
+    if form == 'loose':
+        # the flags as other values of the same truth: what an index without the field, a database row or a caller's 0 / 1 give
+        falsy, truthy = ('', None, 0), (1, 'yes')
+        return le.Licensing([le.LicenseSymbol(k, aliases=tuple(als), is_exception=(truthy[i % 2] if ex else falsy[i % 3]))
+                             for i, (k, als, ex) in enumerate(T)])
     if form == 'obj':
         class Obj(object):
             def __init__(self, key, aliases, is_exception):
